@@ -407,7 +407,31 @@ def document_program(draw):
 # Grammar-directed (ill-typed allowed)
 
 ALL_LEAF_KINDS = ["int", "uint", "double", "bool", "string", "bytes", "null"]
-FUNCS1 = ["size", "int", "uint", "double", "string", "bytes", "bool", "type", "duration", "timestamp", "dyn", "nofunc", "list", "map"]
+FUNCS1 = ["size", "int", "uint", "double", "string", "bytes", "bool", "type", "duration", "timestamp", "dyn", "nofunc", "list", "map", "matches", "contains",
+          "startsWith", "endsWith", "getHours", "null_type", "google.protobuf.Timestamp", "google.protobuf.Duration"]
+# texts that mean something to one built-in or another: zone names (incl. names of directories and special files of the zone database), offsets, times, numbers
+SPECIAL_TEXTS = ["UTC", "Z", "America", "America/New_York", "Etc", "Etc/UTC", "US", "posix", "posix/UTC", "right", "localtime", "posixrules", "zone.tab", "tzdata.zi", "..", "../UTC",
+                 "/etc/passwd", "Europe/", "+01:00", "-00:30", "+25:00", "01:00", "+0100", "EST", "2009-02-13T23:31:30Z", "2009-02-13T23:31:30+01:00", "0001-01-01T00:00:00Z",
+                 "9999-12-31T23:59:59.999999999Z", "10000-01-01T00:00:00Z", "90s", "1h1m1s", "-1.5h", "1d", "1e3s", "inf", "nan", "-0", "0x10", "1_0", " 1", "true", "TRUE", "1.0", "1e5",
+                 "9223372036854775808", "(", "a{2,1}", "[", "\\"]
+MSG_NAMES = ["google.protobuf.Int64Value", "google.protobuf.UInt64Value", "google.protobuf.DoubleValue", "google.protobuf.BoolValue", "google.protobuf.StringValue",
+             "google.protobuf.BytesValue", "google.protobuf.Int32Value", "google.protobuf.Struct", "google.protobuf.Value", "google.protobuf.ListValue", "google.protobuf.Any",
+             "google.protobuf.Timestamp", "google.protobuf.Duration", "google.protobuf.Empty", "undefined.Message", "TestAllTypes", "int", "x"]
+MSG_FIELDS = ["value", "value", "valu", "seconds", "nanos", "fields", "values", "a", "b", "null_value", "number_value", "string_value", "single_int64"]
+ESCAPES = ["\\U00000041", "\\U0001F431", "\\U00110000", "\\U0000D800", "\\u0041", "\\ud800", "\\u00e9", "\\x41", "\\xff", "\\X41", "\\101", "\\377", "\\777", "\\400", "\\8", "\\q",
+           "\\n", "\\a", "\\`", "\\?", "\\\\", "\\'", '\\"', "\\u12", "\\U1234", "\\x4", "\\1", "\\12", "a", "é", "\U0001f431", " ", "\\0", "\\000", "\\x00"]
+
+
+@st.composite
+def odd_literal(draw) -> Tuple:
+    """A string / bytes literal in any prefix and quote style whose body is a sequence of escapes of every form - valid, invalid for the literal's kind,
+    out of range, truncated. The compile step must accept it or reject it with a parse error; evaluation must give a value or a CEL error."""
+    prefix = draw(st.sampled_from(["", "", "b", "b", "B", "r", "R", "br", "rb", "bR", "Rb"]))
+    q = draw(st.sampled_from(["'", '"', "'''", '"""']))
+    body = "".join(draw(st.lists(st.sampled_from(ESCAPES), min_size=0, max_size=4)))
+    if q in body and len(q) == 1 and "\\" + q not in body:
+        body = body.replace(q, "")
+    return ("raw", f"{prefix}{q}{body}{q}", 8)
 METHODS0 = ["size", "getFullYear", "getMonth", "getDate", "getDayOfMonth", "getDayOfWeek", "getDayOfYear", "getHours", "getMinutes", "getSeconds", "getMilliseconds"]
 METHODS1 = ["contains", "startsWith", "endsWith", "matches", "getHours", "nomethod"]
 BINOPS = ["+", "-", "*", "/", "%", "==", "!=", "<", "<=", ">", ">=", "in", "&&", "||"]
@@ -419,6 +443,11 @@ def any_expr(draw, depth: int, names: List[str], macro_vars: Tuple[str, ...] = (
     if depth <= 0 or draw(st.integers(0, 9)) < 2:
         k = draw(st.integers(0, 11))
         if k < 5:
+            j = draw(st.integers(0, 11))
+            if j == 0:
+                return ("lit", "string", draw(st.sampled_from(SPECIAL_TEXTS)))
+            if j == 1:
+                return draw(odd_literal())
             kind = draw(st.sampled_from(ALL_LEAF_KINDS))
             return ("lit", kind, draw(payload_of(kind)))
         if k < 9 and (names or macro_vars):
@@ -432,7 +461,17 @@ def any_expr(draw, depth: int, names: List[str], macro_vars: Tuple[str, ...] = (
     def sub(mv: Tuple[str, ...] = macro_vars) -> Tuple:
         return draw(any_expr(depth - 1, names, mv))
 
-    c = draw(st.sampled_from(["bin", "bin", "bin", "un", "cond", "index", "select", "call", "method", "macro", "macro", "list", "map", "has", "paren", "dotvar"]))
+    c = draw(st.sampled_from(["bin", "bin", "bin", "un", "cond", "index", "select", "call", "call", "method", "method", "macro", "macro", "list", "map", "has", "paren", "dotvar", "msg", "tzmethod"]))
+    if c == "tzmethod":
+        # a calendar accessor applied to a timestamp-ish receiver with a zone-ish argument (names of directories / special files of the zone database included)
+        recv = draw(st.sampled_from([("var", n) for n in names if n in ("t1", "t2")] + [("call", "timestamp", (("lit", "string", "2009-02-13T23:31:30Z"),)), ("call", "timestamp", (("lit", "int", 0),))]))
+        arg = ("lit", "string", draw(st.sampled_from(SPECIAL_TEXTS))) if draw(st.integers(0, 4)) else sub()
+        return ("method", recv, draw(st.sampled_from(METHODS0[1:])), (arg,))
+    if c == "msg":
+        name = draw(st.sampled_from(MSG_NAMES))
+        head: Tuple = ("var", name) if "." not in name else ("raw", name, 8)
+        nf = draw(st.integers(0, 3))
+        return ("msg", head, tuple((draw(st.sampled_from(MSG_FIELDS)), sub()) for _ in range(nf)))
     if c == "bin":
         return ("bin", draw(st.sampled_from(BINOPS)), sub(), sub())
     if c == "un":
@@ -450,16 +489,22 @@ def any_expr(draw, depth: int, names: List[str], macro_vars: Tuple[str, ...] = (
         if n < 7:
             return ("call", draw(st.sampled_from(FUNCS1)), (sub(),))
         if n == 7:
-            return ("call", draw(st.sampled_from(["size", "nofunc", "int"])), ())
-        return ("call", draw(st.sampled_from(["matches", "contains", "nofunc", "size"])), (sub(), sub()))
+            return ("call", draw(st.sampled_from(FUNCS1 + ["has"])), ())  # every function (and the function-like macro) with no argument at all
+        if n == 8:
+            return ("call", draw(st.sampled_from(FUNCS1)), (sub(), sub()))
+        return ("call", draw(st.sampled_from(FUNCS1)), (sub(), sub(), sub()))
     if c == "method":
         if draw(st.integers(0, 7)) == 0:
             # a macro name with the wrong number of arguments: CEL treats it as an (unknown) method call
             n = draw(st.sampled_from([0, 1, 3]))
             return ("method", sub(), draw(st.sampled_from(["map", "filter", "all", "exists", "exists_one"])), tuple(("var", "x") if i == 0 else sub() for i in range(n)))
-        if draw(st.booleans()):
+        k = draw(st.integers(0, 8))
+        if k < 4:
             return ("method", sub(), draw(st.sampled_from(METHODS0)), ())
-        return ("method", sub(), draw(st.sampled_from(METHODS1)), (sub(),))
+        if k < 8:
+            return ("method", sub(), draw(st.sampled_from(METHODS1 + METHODS0)), (sub(),))
+        # (two arguments after a macro name would be the macro with a non-identifier variable: out of domain)
+        return ("method", sub(), draw(st.sampled_from([m for m in METHODS1 + METHODS0 + FUNCS1 if m not in ("map", "filter", "all", "exists", "exists_one")])), (sub(), sub()))
     if c == "macro":
         var = draw(st.sampled_from(["x", "y", "i"]))
         return ("macro", sub(), draw(st.sampled_from(["map", "filter", "all", "exists", "exists_one"])), var, sub(macro_vars + (var,)))
